@@ -100,6 +100,9 @@ def job_sphere(j):
     lo = conv_args([v / dsc if dsc != 1 else v for v in lon], at if at != "mixed32" else "float32")
     la = conv_args([v / dsc if dsc != 1 else v for v in lat], at if at != "mixed32" else "float64")
     full = at in (None,) + FULL_PRECISION
+    # a non-default sphere radius: distances are reported in units of radius / 6378137, i.e. in the metres the
+    # same pair would have on the default sphere, so every table is judged at the same resolution
+    unit = 1.0 if rad is None else float(rad) / 6378137.0
     m, z, bt = [], [], []
     err = None
     for a in range(n):
@@ -118,10 +121,10 @@ def job_sphere(j):
                 rm.append(-3)
                 rz.append(0)
             else:
-                rm.append(int(round(d)))
+                rm.append(int(round(d / unit)) if d / unit < 2e9 else 2000000000)
                 rz.append(1 if d == 0.0 else 0)
         m.append(rm); z.append(rz); bt.append(rb)
-    R = 6378137.0 if rad is None else float(rad)
+    R = 6378137.0
     # narrow argument types make numba compute the haversine in float32 (7 digits: metres at planetary scale)
     out = {"kind": "sphere", "lon": lon, "lat": lat, "m": m, "zero": z, "bits": bt,
            "piR": int(math.ceil(math.pi * R)) + (0 if full else 16), "slack": 2 if full else max(64, int(R * 1e-3)),   # float32 haversine near antipodes is ill-conditioned:
